@@ -4,14 +4,17 @@
 (* small leaf sets that deliberately contain the confusable pairs (number  *)
 (* 1 / float 1.0 / string "1"; name /a / string "/a"; pair / two-element   *)
 (* list; [1] and the number 65792; empty string / empty list / empty map;  *)
-(* a backslash followed by t / a TAB; 0.0 / -0.0).                         *)
+(* a backslash followed by t / a TAB; 0.0 / -0.0; instants a second apart *)
+(* around the epoch).                                                      *)
 (* Used by C08 (equality, hash, print), C09 (print/parse) and C07.         *)
 (***************************************************************************)
 EXTENDS Values, Json, SequencesExt
 VARIABLE done
 Leaves == { Num(0), Num(1), Num(-1), Num(65792), Str(""), Str("a"), Str("1"), Str("/a"), Str("a\"b"), Str("two\nlines"), Str("C:\\temp"), Str("C:\temp"),
             Nm("/a"), Nm("/a/b"), Nm("/1"), <<"y", "a">>, <<"y", "">>, <<"f", "1">>, <<"f", "1.5">>, <<"f", "-0.5">>, <<"f", "0">>, <<"f", "-0">>,
-            Tm(0), Tm(1), Du(0), Du(90) }
+            Tm(0), Tm(1), Du(0), Du(90),
+            \* instants with a sub-second part on both sides of the epoch, one second apart (unit: 1 ns)
+            Tm(-1), Tm(999999999), Tm(-999999999), Tm(-1000000000), Tm(-1000000001), Tm(1000000000), Du(-1), Du(-90) }
 Small == { Num(1), Str("a"), Nm("/a"), <<"f", "1">> }
 Depth1 ==
   {Pair(a, b) : a \in Small, b \in Small}
